@@ -61,6 +61,7 @@ var KnownIssues = map[string]bool{
 	"nlri-flowspec-unknown-component": true,
 	"nlri-rtc-prefix-length":          true,
 	"nlri-ls-multi-topo-descriptor":   true,
+	"nlri-rd-unknown-type":            true,
 
 	"attr-aggregator-2octet-as":  true,
 	"attr-ip6-extcomm-unknown":   true,
@@ -71,10 +72,7 @@ var KnownIssues = map[string]bool{
 	"attr-ls-igp-metric-length":          true,
 	"attr-ls-adjacency-sid-fields":       true,
 	"attr-ls-local-router-id-duplicated": true,
-	"attr-ls-ctor-length":                true,
-	"attr-ls-peer-adjacency-sid-type":    true,
 	"attr-ls-prefix-sid-dropped":         true,
-	"attr-ls-opaque-prefix-attr-dropped": true,
 	"attr-ls-flex-algo-dropped":          true,
 }
 
@@ -83,6 +81,7 @@ var KnownIssues = map[string]bool{
 // demands the right behaviour - and their probes are kept as regression tests: they must pass.
 var c18Fixed = map[string]string{
 	"nlri-srpolicy-length-unit":          "fix: apiutil: report the SR Policy NLRI length in bits",
+	"nlri-evpn-ipmsi-not-converted":      "fix: apiutil: convert the EVPN I-PMSI route (type 9) to and from the API",
 	"attr-extcomm-l2-attributes":         "fix: apiutil: convert extended communities without API message as unknown",
 	"attr-tunnel-srbsid-empty":           "fix: apiutil: SR policy Binding SID sub-TLV without SID no longer panics",
 	"attr-tunnel-srbsid-label-shift":     "fix: apiutil: report the MPLS Binding SID of an SR policy as the label value",
@@ -91,6 +90,11 @@ var c18Fixed = map[string]string{
 	"attr-prefix-sid-subtlv-count":       "fix: apiutil: length of an SRv6 service TLV built from the API",
 	"attr-mp-reach-link-local-afi":       "fix: apiutil: keep the link-local next hop of MP_REACH_NLRI for non-IPv6 AFIs",
 	"attr-ls-igp-flags-fabricates-tlvs":  "fix: apiutil: BGP-LS prefix attribute TLVs are independent of the IGP Flags TLV",
+	// the apiutil half by the commit above, the constructor by "fix: NewLsTLVOpaquePrefixAttr builds a TLV that cannot be serialised" (codec triage C04)
+	"attr-ls-opaque-prefix-attr-dropped": "fix: apiutil: BGP-LS prefix attribute TLVs are independent of the IGP Flags TLV",
+	// repaired in pkg/packet/bgp by the codec triage (C04): the API -> native direction uses these constructors
+	"attr-ls-ctor-length":             "fix: NewLsTLVLocalIPv6RouterID / NewLsTLVRemoteIPv6RouterID / NewLsTLVSrCapabilities / NewLsTLVSrLocalBlock ... (four commits of C04)",
+	"attr-ls-peer-adjacency-sid-type": "fix: NewLsTLVPeerAdjacencySID builds an Adjacency SID TLV",
 }
 
 // c18KnownNotes documents each key of KnownIssues and of c18Fixed (as it was before the fix): what
@@ -107,6 +111,10 @@ var c18KnownNotes = map[string]string{
 		"route target prefixes /33../95): api.RouteTargetMembershipNLRI has no length field, UnmarshalNLRI returns a /0 or /96 NLRI.",
 	"nlri-ls-multi-topo-descriptor": "BGP-LS Link / Prefix NLRI with a Multi-Topology Identifier descriptor TLV (263): LsLinkDescriptor/LsPrefixDescriptor.ParseTLVs " +
 		"and the API messages have no field for it (only the SRv6 SID NLRI has), MarshalLsLinkNLRI/MarshalLsPrefixV4NLRI/V6 drop the TLV although it is part of the NLRI key.",
+	"nlri-rd-unknown-type": "NLRI with a route distinguisher of a type other than 0, 1, 2 (bgp.RouteDistinguisherUnknown, what the decoder produces for it): api.RouteDistinguisher " +
+		"has no message for it, MarshalRD fails with 'invalid rd type to marshal' and with it MarshalNLRI / MarshalPathAttributes (toPathApi ignores the error: the route is listed without NLRI / attributes).",
+	"nlri-evpn-ipmsi-not-converted": "EVPN I-PMSI route (route type 9, bgp.NewEVPNIPMSIRoute): the API defines EVPNIPMSIRoute (NLRI.evpn_i_pmsi) but MarshalNLRI had no case for the route type " +
+		"and returned an api.NLRI without content; UnmarshalNLRI rejected the message ('invalid nlri').",
 	"attr-aggregator-2octet-as": "AGGREGATOR built with a 2-octet AS (bgp.NewPathAttributeAggregator(uint16, addr), 6 octet value): api.AggregatorAttribute has no " +
 		"width, UnmarshalAttribute always builds the 4-octet form (8 octet value).",
 	"attr-extcomm-l2-attributes": "EXTENDED_COMMUNITIES containing Layer2AttributesExtended (EVPN layer 2 attributes, which ParseExtended produces): " +
@@ -140,11 +148,11 @@ var c18KnownNotes = map[string]string{
 	"attr-ls-peer-adjacency-sid-type": "BGP-LS Peer Adjacency SID TLV (1102): bgp.NewLsTLVPeerAdjacencySID, used by the API -> native direction, sets type 1099 (Adjacency SID) - verifgen.KnownCodecIssues ls-ctor-peer-adjacency-sid-type.",
 	"attr-ls-igp-flags-fabricates-tlvs": "BGP-LS IGP Flags TLV: when igp_flags is present UnmarshalLsAttribute also sets Prefix.Opaque and Prefix.SrPrefixSID to non-nil pointers, " +
 		"so NewLsAttributeTLVs adds an Opaque Prefix Attribute and a Prefix-SID TLV that were never there (and the latter does not serialise: ls-ctor-prefix-sid).",
-	"attr-ls-prefix-sid-dropped": "BGP-LS Prefix-SID TLV: NewLsAttributeFromNative emits sr_prefix_sid / sr_prefix_sids and UnmarshalLsAttribute keeps both (it used to keep sr_prefix_sid only " +
-		"when igp_flags was present, repaired), but bgp.NewLsAttributeTLVs builds the TLV with bgp.NewLsTLVPrefixSID, which sets Length 0 and does not serialise (ls-ctor-prefix-sid), " +
-		"and never looks at SrPrefixSIDs: flags and algorithm are lost in any case.",
-	"attr-ls-opaque-prefix-attr-dropped": "BGP-LS Opaque Prefix Attribute TLV: UnmarshalLsAttribute keeps prefix.opaque (it used to do so only when igp_flags was present, repaired), " +
-		"but bgp.NewLsTLVOpaquePrefixAttr sets Length 0 and the TLV does not serialise for a non-empty value (ls-ctor-opaque-prefix-attr).",
+	"attr-ls-prefix-sid-dropped": "BGP-LS Prefix-SID TLV with flags, an algorithm or the 3 octet label form: NewLsAttributeFromNative emits sr_prefix_sid / sr_prefix_sids and UnmarshalLsAttribute " +
+		"keeps both (it used to keep sr_prefix_sid only when igp_flags was present: repaired, as is the constructor bgp.NewLsTLVPrefixSID, which set Length 0), but bgp.NewLsAttributeTLVs builds " +
+		"the TLV from SrPrefixSID alone (flags 0, algorithm 0, 4 octet index) and never looks at SrPrefixSIDs, which carry flags and algorithm.",
+	"attr-ls-opaque-prefix-attr-dropped": "BGP-LS Opaque Prefix Attribute TLV: UnmarshalLsAttribute only kept prefix.opaque when igp_flags was present, and bgp.NewLsTLVOpaquePrefixAttr set Length 0 " +
+		"so that the TLV did not serialise for a non-empty value (an empty value is still dropped: attr-ls-zero-value-dropped).",
 	"attr-ls-flex-algo-dropped": "BGP-LS Flexible Algorithm Definition / Flex-Algo Prefix Metric TLVs: converted to flex_algo_defs / fad_prefix_metrics and back into LsAttribute, " +
 		"but bgp.NewLsAttributeTLVs builds no TLV from FlexAlgoDefs / FadPrefixMetrics; the unsupported / unknown sub-TLVs of a FAD have no API field at all.",
 }
@@ -1044,15 +1052,14 @@ func c18LsTLVShapes(t bgp.LsTLVInterface) (keys []string) {
 	case *bgp.LsTLVLocalIPv4RouterID:
 		keys = append(keys, "attr-ls-local-router-id-duplicated")
 	case *bgp.LsTLVLocalIPv6RouterID:
-		keys = append(keys, "attr-ls-local-router-id-duplicated", "attr-ls-ctor-length")
-	case *bgp.LsTLVRemoteIPv6RouterID, *bgp.LsTLVSrCapabilities, *bgp.LsTLVSrLocalBlock:
-		keys = append(keys, "attr-ls-ctor-length")
-	case *bgp.LsTLVPeerAdjacencySID:
-		keys = append(keys, "attr-ls-peer-adjacency-sid-type")
+		keys = append(keys, "attr-ls-local-router-id-duplicated")
 	case *bgp.LsTLVPrefixSID:
-		keys = append(keys, "attr-ls-prefix-sid-dropped")
+		zero(v.SID == 0)
+		if v.Flags != 0 || v.Algorithm != 0 || v.Length != 8 {
+			keys = append(keys, "attr-ls-prefix-sid-dropped")
+		}
 	case *bgp.LsTLVOpaquePrefixAttr:
-		keys = append(keys, "attr-ls-opaque-prefix-attr-dropped")
+		zero(len(v.Attr) == 0)
 	case *bgp.LsTLVFlexAlgoDef, *bgp.LsTLVFADPrefixMetric:
 		keys = append(keys, "attr-ls-flex-algo-dropped")
 	}
@@ -1099,6 +1106,9 @@ func c18NLRIShapes(f bgp.Family, n bgp.NLRI) (keys []string) {
 		}
 		return false
 	}
+	if _, ok := c18RDOf(n).(*bgp.RouteDistinguisherUnknown); ok {
+		keys = append(keys, "nlri-rd-unknown-type")
+	}
 	switch v := n.(type) {
 	case *bgp.FlowSpecNLRI:
 		for _, c := range v.Value {
@@ -1131,6 +1141,19 @@ func c18NLRIShapes(f bgp.Family, n bgp.NLRI) (keys []string) {
 }
 
 func c18CapShapes(c bgp.ParameterCapabilityInterface) []string { return nil }
+
+// c18RDOf returns the route distinguisher of an NLRI that has one.
+func c18RDOf(n bgp.NLRI) bgp.RouteDistinguisherInterface {
+	switch v := n.(type) {
+	case *bgp.LabeledVPNIPAddrPrefix:
+		return v.RD
+	case interface {
+		RD() bgp.RouteDistinguisherInterface
+	}:
+		return v.RD()
+	}
+	return nil
+}
 
 // ---------------------------------------------------------------------------
 // minimal reproducers of the known issues
@@ -1183,6 +1206,14 @@ var c18Probes = map[string]c18Probe{
 		return n
 	}},
 	"nlri-ls-multi-topo-descriptor": {test: "C18_nlri", fam: bgp.RF_LS, nlri: c18LsPrefixNLRIWithMT},
+	"nlri-rd-unknown-type": {test: "C18_nlri", fam: bgp.RF_IPv4_VPN, nlri: func() bgp.NLRI {
+		rd := &bgp.RouteDistinguisherUnknown{DefaultRouteDistinguisher: bgp.DefaultRouteDistinguisher{Type: 3}, Value: []byte{1, 2, 3, 4, 5, 6}}
+		n, _ := bgp.NewLabeledVPNIPAddrPrefix(netip.MustParsePrefix("10.0.0.0/24"), *bgp.NewMPLSLabelStack(100), rd)
+		return n
+	}},
+	"nlri-evpn-ipmsi-not-converted": {test: "C18_nlri", fam: bgp.RF_EVPN, nlri: func() bgp.NLRI {
+		return bgp.NewEVPNIPMSIRoute(bgp.NewRouteDistinguisherTwoOctetAS(65000, 1), 10, bgp.NewTwoOctetAsSpecificExtended(bgp.EC_SUBTYPE_ROUTE_TARGET, 65000, 100, true))
+	}},
 	"attr-aggregator-2octet-as": {test: "C18_attr", attr: func() bgp.PathAttributeInterface {
 		a, _ := bgp.NewPathAttributeAggregator(uint16(65000), netip.MustParseAddr("10.0.0.1"))
 		return a
@@ -1260,7 +1291,8 @@ var c18Probes = map[string]c18Probe{
 	}},
 	"attr-ls-prefix-sid-dropped": {test: "C18_attr", attr: func() bgp.PathAttributeInterface {
 		t := bgp.NewLsTLVPrefixSID(c18U32(100))
-		t.Length = 8 // what the decoder produces for a 4 octet index
+		t.Length = 8                     // what the decoder produces for a 4 octet index
+		t.Flags, t.Algorithm = 0x40, 128 // N flag of an IS-IS prefix SID, flexible algorithm 128
 		return c18LsAttrOf(t)
 	}},
 	"attr-ls-opaque-prefix-attr-dropped": {test: "C18_attr", attr: func() bgp.PathAttributeInterface {
